@@ -23,7 +23,14 @@ inductive Err
   | intOverflow       -- `np.int32(operator)` / `np.int32(maxnan)` on a python int outside int32 → OverflowError
   | badInterpolation  -- monthly2daily: interpolation not in flat / cubic → ValueError
   | badTimestep       -- compute_aggindex: time step not in AS / AS-MMM / MS / D / h → AssertionError
+  | assertFailed      -- c_hydrodiy_data.aggregate / flathomogen: `assert nval == inputs.shape[0]` … → AssertionError
   deriving DecidableEq, Repr
+
+/-- representable as a C `int` (what `np.int32(x)` / a Cython `int` argument accept of a python int) -/
+def inInt32 (i : Int) : Bool := decide (-2147483648 ≤ i) && decide (i ≤ 2147483647)
+
+/-- `np.array(aggindex).astype(np.int32)` on integer input: C cast, wraps modulo 2^32 -/
+def wrap32 (i : Int) : Int := (i + 2147483648) % 4294967296 - 2147483648
 
 section kernels
 variable {α : Type} [Add α] [Div α] [LT α] [DecidableLT α] [OfNat α 0] [NatCast α]
@@ -129,12 +136,91 @@ def flathomogen (maxnan : Int) (l : List (Int × Option α)) : Except Err (List 
 
 end kernels
 
+/-! ### the kernels at buffer level: what is left in the caller's `outputs` / `iend` arrays, also when an error code
+is returned (c_dutils.c writes `outputs[count]` as it goes and sets `iend[0]` only on the success path) -/
+section buffers
+variable {α : Type} [Add α] [Div α] [LT α] [DecidableLT α] [OfNat α 0] [NatCast α]
+
+/-- `step`, keeping the loop state reached when the kernel returns its error code: a decrease is seen before anything
+is written for the current element, the (unreachable) capacity guard after `outputs[count] = agg; count++` -/
+def stepB (op maxnan : Int) (nval : Nat) (s : St α) (ia : Int) (x : Option α) : Except (Err × St α) (St α) :=
+  if ia < s.prev then .error (.decreasingIndex, s)
+  else if ia ≠ s.prev then
+    let out := flush op maxnan s.acc :: s.out
+    if nval ≤ out.length then .error (.bufferFull, { prev := s.prev, acc := s.acc, out := out })
+    else .ok { prev := ia, acc := accStep op Acc.init x, out := out }
+  else .ok { prev := s.prev, acc := accStep op s.acc x, out := s.out }
+
+def loopB (op maxnan : Int) (nval : Nat) : St α → List (Int × Option α) → Except (Err × St α) (St α)
+  | s, [] => .ok s
+  | s, (ia, x) :: rest =>
+    match stepB op maxnan nval s ia x with
+    | .error e => .error e
+    | .ok s' => loopB op maxnan nval s' rest
+
+/-- what `c_aggregate` leaves behind: return code (`none` = 0), the `outputs` buffer, `iend[0]` -/
+structure KOut (α : Type) where
+  ierr : Option Err
+  outputs : List (Option α)
+  iend : Int
+  deriving DecidableEq
+
+/-- `c_aggregate(nval, operator, maxnan, aggindex, inputs, outputs, iend)` with `nval` the common length of
+`aggindex` / `inputs` (asserted by the Cython layer), `buf` the content of `outputs` before the call and `iend0` that of
+`iend[0]`: the closed groups overwrite the head of the buffer, the rest is not touched, `iend[0]` is written on success only -/
+def cAggregate (op maxnan : Int) (l : List (Int × Option α)) (buf : List (Option α)) (iend0 : Int) : KOut α :=
+  match l with
+  | [] => { ierr := some .emptyInput, outputs := buf, iend := iend0 }
+  | (i0, _) :: _ =>
+    match loopB op maxnan l.length ({ prev := i0, acc := Acc.init, out := [] } : St α) l with
+    | .error (e, s) => { ierr := some e, outputs := s.out.reverse ++ buf.drop s.out.length, iend := iend0 }
+    | .ok s =>
+      let w := (flush op maxnan s.acc :: s.out).reverse
+      { ierr := none, outputs := w ++ buf.drop w.length, iend := (w.length : Int) }
+
+def hstepB (maxnan : Int) (s : HSt α) (ia : Int) (x : Option α) : Except (Err × HSt α) (HSt α) :=
+  if ia < s.prev then .error (.decreasingIndex, s)
+  else if ia ≠ s.prev then
+    .ok { prev := ia, acc := accStep 0 Acc.init x, grp := [x], out := hflush maxnan s.acc s.grp ++ s.out }
+  else .ok { prev := s.prev, acc := accStep 0 s.acc x, grp := x :: s.grp, out := s.out }
+
+def hloopB (maxnan : Int) : HSt α → List (Int × Option α) → Except (Err × HSt α) (HSt α)
+  | s, [] => .ok s
+  | s, (ia, x) :: rest =>
+    match hstepB maxnan s ia x with
+    | .error e => .error e
+    | .ok s' => hloopB maxnan s' rest
+
+/-- `c_flathomogen(nval, maxnan, aggindex, inputs, outputs)`: return code and the `outputs` buffer after the call
+(the groups closed before a decrease are already written) -/
+def cFlathomogen (maxnan : Int) (l : List (Int × Option α)) (buf : List (Option α)) : Option Err × List (Option α) :=
+  match l with
+  | [] => (some .emptyInput, buf)
+  | (i0, _) :: _ =>
+    match hloopB maxnan ({ prev := i0, acc := Acc.init, grp := [], out := [] } : HSt α) l with
+    | .error (e, s) => (some e, s.out.reverse ++ buf.drop s.out.length)
+    | .ok s =>
+      let w := (hflush maxnan s.acc s.grp ++ s.out).reverse
+      (none, w ++ buf.drop w.length)
+
+/-- `c_hydrodiy_data.aggregate(oper, maxnan, aggindex, inputs, outputs, iend)` (c_hydrodiy_data.pyx:119-139):
+C-int conversion of the two scalars, the three shape assertions, then the kernel on the caller's buffers -/
+def pyxAggregate (op maxnan : Int) (idx : List Int) (vals buf : List (Option α)) (iend : List Int) :
+    Except Err (KOut α) :=
+  if !(inInt32 op) || !(inInt32 maxnan) then .error .intOverflow
+  else if idx.length ≠ vals.length ∨ idx.length ≠ buf.length ∨ iend.length ≠ 1 then .error .assertFailed
+  else .ok (cAggregate op maxnan (idx.zip vals) buf (iend.headD 0))
+
+/-- `c_hydrodiy_data.flathomogen(maxnan, aggindex, inputs, outputs)` (c_hydrodiy_data.pyx:142-159) -/
+def pyxFlathomogen (maxnan : Int) (idx : List Int) (vals buf : List (Option α)) :
+    Except Err (Option Err × List (Option α)) :=
+  if !(inInt32 maxnan) then .error .intOverflow
+  else if idx.length ≠ vals.length ∨ idx.length ≠ buf.length then .error .assertFailed
+  else .ok (cFlathomogen maxnan (idx.zip vals) buf)
+
+end buffers
+
 /-! ### the Python wrappers `dutils.aggregate` / `dutils.flathomogen` (dutils.py:150-250): argument glue -/
-
-def inInt32 (i : Int) : Bool := decide (-2147483648 ≤ i) && decide (i ≤ 2147483647)
-
-/-- `np.array(aggindex).astype(np.int32)` on integer input: C cast, wraps modulo 2^32 -/
-def wrap32 (i : Int) : Int := (i + 2147483648) % 4294967296 - 2147483648
 
 section wrappers
 variable {α : Type} [Add α] [Div α] [LT α] [DecidableLT α] [OfNat α 0] [NatCast α]
@@ -154,7 +240,109 @@ def flathomogenW (maxnan : Int) (idx : List Int) (vals : List (Option α)) :
   else if !(inInt32 maxnan) then .error .intOverflow
   else flathomogen maxnan ((idx.map wrap32).zip vals)
 
+/-- `outputs = 0.*inputs` (dutils.py:183, 241): the freshly allocated output buffer -/
+def zeroTimes [Mul α] : Option α → Option α
+  | none => none
+  | some x => some (0 * x)
+
+/-- `dutils.aggregate` line by line through the Cython layer and the buffers: `outputs = 0.*inputs`,
+`iend = np.array([0])`, the call, `if ierr > 0: raise ValueError`, `outputs[:iend[0]]` -/
+def aggregateWB [Mul α] (op maxnan : Int) (idx : List Int) (vals : List (Option α)) :
+    Except Err (List (Option α)) :=
+  if idx.length ≠ vals.length then .error .lengthMismatch
+  else if !(inInt32 op) || !(inInt32 maxnan) then .error .intOverflow
+  else
+    match pyxAggregate op maxnan (idx.map wrap32) vals (vals.map zeroTimes) [0] with
+    | .error e => .error e
+    | .ok k =>
+      match k.ierr with
+      | some e => .error e
+      | none => .ok (k.outputs.take k.iend.toNat)
+
+/-- `dutils.flathomogen` through the Cython layer and the buffer -/
+def flathomogenWB [Mul α] (maxnan : Int) (idx : List Int) (vals : List (Option α)) :
+    Except Err (List (Option α)) :=
+  if idx.length ≠ vals.length then .error .lengthMismatch
+  else if !(inInt32 maxnan) then .error .intOverflow
+  else
+    match pyxFlathomogen maxnan (idx.map wrap32) vals (vals.map zeroTimes) with
+    | .error e => .error e
+    | .ok (some e, _) => .error e
+    | .ok (none, out) => .ok out
+
 end wrappers
+
+/-! ### histories on one set of arrays: the caller's `aggindex` / `inputs`, the calls, the arrays handed out -/
+section histories
+variable {α : Type} [Add α] [Div α] [LT α] [DecidableLT α] [OfNat α 0] [NatCast α]
+
+/-- what the caller holds: the two argument arrays and every array returned so far (oldest first) -/
+structure Hist (α : Type) where
+  idx : List Int
+  vals : List (Option α)
+  outs : List (List (Option α))
+  deriving DecidableEq
+
+inductive HOp (α : Type)
+  | setVal (i : Nat) (v : Option α)     -- `inputs[i] = v` (an index out of range raises IndexError: nothing changes)
+  | setIdx (i : Nat) (k : Int)          -- `aggindex[i] = k`
+  | scribble (r : Nat) (v : Option α)   -- `outs[r][...] = v`: the caller overwrites an array it was given
+  | callAgg (op maxnan : Int)           -- `dutils.aggregate(aggindex, inputs, op, maxnan)`
+  | callHomog (maxnan : Int)            -- `dutils.flathomogen(aggindex, inputs, maxnan)`
+
+def HOp.isEdit : HOp α → Bool
+  | .setVal .. => true
+  | .setIdx .. => true
+  | _ => false
+
+/-- one operation: the new state and, for a call, its answer.  The wrappers copy their arguments (`astype`) and
+allocate a fresh result (`0.*inputs`), so a call reads the current arrays, never writes them, never touches an
+array handed out earlier; a rejected call (ValueError) changes nothing at all -/
+def histStep (s : Hist α) : HOp α → Hist α × Option (Except Err (List (Option α)))
+  | .setVal i v => ({ s with vals := s.vals.set i v }, none)
+  | .setIdx i k => ({ s with idx := s.idx.set i k }, none)
+  | .scribble r v => ({ s with outs := s.outs.modify r fun o => o.map fun _ => v }, none)
+  | .callAgg op maxnan =>
+    match aggregateW op maxnan s.idx s.vals with
+    | .ok out => ({ s with outs := s.outs ++ [out] }, some (.ok out))
+    | .error e => (s, some (.error e))
+  | .callHomog maxnan =>
+    match flathomogenW maxnan s.idx s.vals with
+    | .ok out => ({ s with outs := s.outs ++ [out] }, some (.ok out))
+    | .error e => (s, some (.error e))
+
+/-- a whole history: final state and the answers of the calls, in order -/
+def histRun : Hist α → List (HOp α) → Hist α × List (Except Err (List (Option α)))
+  | s, [] => (s, [])
+  | s, o :: rest =>
+    let r := histStep s o
+    let r' := histRun r.1 rest
+    (r'.1, match r.2 with | some a => a :: r'.2 | none => r'.2)
+
+end histories
+
+/-! ### a floating-point aggregation index: `np.array(aggindex).astype(np.int32)` on float64 values -/
+
+/-- the integer part, rounding toward zero (C conversion of a double to `int`) -/
+def truncQ (q : Rat) : Int := if 0 ≤ q then q.floor else -((-q).floor)
+
+/-- the C cast of one float64 index value to int32; `none` is NaN / ±inf.  A value whose integer part is outside
+int32 has no defined conversion in C; the x86-64 conversion instruction, which numpy uses, returns INT_MIN -/
+def castIdx : Option Rat → Int
+  | none => -2147483648
+  | some q => if inInt32 (truncQ q) then truncQ q else -2147483648
+
+section wrappersF
+variable {α : Type} [Add α] [Div α] [LT α] [DecidableLT α] [OfNat α 0] [NatCast α]
+
+/-- `dutils.aggregate` called with a float64 aggregation index -/
+def aggregateWF (op maxnan : Int) (idx : List (Option Rat)) (vals : List (Option α)) :
+    Except Err (List (Option α)) :=
+  if idx.length ≠ vals.length then .error .lengthMismatch
+  else if !(inInt32 op) || !(inInt32 maxnan) then .error .intOverflow
+  else aggregate op maxnan ((idx.map castIdx).zip vals)
+
+end wrappersF
 
 /-! ### `dutils.compute_aggindex` (dutils.py:116-147): the aggregation index built from time stamps -/
 
@@ -194,13 +382,18 @@ def parseStep (s : List Char) : Except Err Step :=
   | ['h'] => .ok .H
   | _ => .error .badTimestep
 
-/-- the index value of one time stamp; `AS-MMM`: `(time + DateOffset(months=11-imth)).year - 1` -/
-def aggIndex : Step → Stamp → Int
+/-- the index value of one time stamp in exact integers; `AS-MMM`: `(time + DateOffset(months=11-imth)).year - 1` -/
+def aggIndexRaw : Step → Stamp → Int
   | .AS, t => t.y
   | .ASm e, t => t.y + (((t.m - 1 + (12 - e)) / 12 : Nat) : Int) - 1
   | .MS, t => t.y * 100 + (t.m : Int)
   | .D, t => t.y * 10000 + (t.m : Int) * 100 + (t.d : Int)
   | .H, t => t.y * 1000000 + (t.m : Int) * 10000 + (t.d : Int) * 100 + (t.h : Int)
+
+/-- what `compute_aggindex` returns: pandas hands out `time.year`, `time.month`, … as int32 Index objects, so
+`time.year*1000000 + …` is int32 arithmetic and wraps modulo 2^32 (only reachable by the hourly index of a year
+beyond 2147; pandas time stamps go up to 2262) -/
+def aggIndex (st : Step) (t : Stamp) : Int := wrap32 (aggIndexRaw st t)
 
 def computeAggindex (timestep : List Char) (ts : List Stamp) : Except Err (List Int) :=
   match parseStep timestep with
@@ -225,6 +418,33 @@ def monthAt (y0 : Int) (m0 j : Nat) : Int × Nat :=
 def ndaysAt (y0 : Int) (m0 j : Nat) : Nat := daysInMonth (monthAt y0 m0 j).1 (monthAt y0 m0 j).2
 
 def monthLengths (y0 : Int) (m0 k : Nat) : List Nat := (List.range k).map (ndaysAt y0 m0)
+
+/-! ### calendar days (what `pd.date_range(start, end)` / `resample("D")` enumerate) -/
+
+structure Date where
+  y : Int
+  m : Nat
+  d : Nat
+  deriving DecidableEq, Repr
+
+/-- the day after -/
+def nextDay (t : Date) : Date :=
+  if t.d < daysInMonth t.y t.m then { y := t.y, m := t.m, d := t.d + 1 }
+  else if t.m < 12 then { y := t.y, m := t.m + 1, d := 1 }
+  else { y := t.y + 1, m := 1, d := 1 }
+
+/-- `n` consecutive days starting at `t` -/
+def daysFrom : Date → Nat → List Date
+  | _, 0 => []
+  | t, n + 1 => t :: daysFrom (nextDay t) n
+
+/-- the calendar days of one month, in order -/
+def monthDays (y : Int) (m : Nat) : List Date :=
+  (List.range (daysInMonth y m)).map fun d => { y := y, m := m, d := d + 1 }
+
+/-- position, in a month-start series beginning at `(y0, m0)`, of the month a day belongs to
+(`ffill`: the latest month start not after the day) -/
+def monthIndex (y0 : Int) (m0 : Nat) (t : Date) : Int := (t.y - y0) * 12 + (t.m : Int) - (m0 : Int)
 
 /-! ### monthly2daily -/
 section m2d
@@ -333,6 +553,60 @@ def m2d (interp : String) (y0 : Int) (m0 : Nat) (minthr : α) (vs : List (Option
     | .error e => .error e
     | .ok ms => .ok (ms.map fun d => d.map some)
   else .error .badInterpolation
+
+/-! #### monthly2daily at the level of the returned daily Series: every value with its calendar-day stamp -/
+
+/-- flat branch, day by day (dutils.py:356-369): the fictive month appended after the last one, `resample("D").ffill()`
+over the days from the first stamp to the fictive one, `sed /= sed.index.days_in_month`, the threshold mask,
+`sed.iloc[:-1]` -/
+def m2dFlatSeries (y0 : Int) (m0 : Nat) (minthr : α) (vs : List (Option α)) :
+    Except Err (List (Date × Option α)) :=
+  if m0 < 1 ∨ 12 < m0 then .error .badMonth
+  else if vs = [] then .error .emptyInput
+  else
+    let sec : List (Option α) := vs.map fun v => some (fillMissing minthr v)
+    let ndays := (monthLengths y0 m0 sec.length).sum + 1
+    let up : List (Date × Option α) := (daysFrom { y := y0, m := m0, d := 1 } ndays).map fun t =>
+      (t, (sec[(monthIndex y0 m0 t).toNat]?).join)
+    let sed := up.map fun p => (p.1, p.2.map fun v => v / ((daysInMonth p.1.y p.1.m : Nat) : α))
+    let sed := sed.map fun p => (p.1, p.2.bind fun d => if d < minthr then none else some d)
+    .ok sed.dropLast
+
+/-- one row of `np.diff(yyc, axis=1)` (dutils.py:416-421): 31 columns; `xxt[xxt > 1] = nan` blanks the columns beyond the
+length of the month; `isnan` is the carrier's NaN test (constant `false` over a field) -/
+def cubicRow (isnan : α → Bool) (m : Month α) : List (Option α) :=
+  (List.range 31).map fun j =>
+    if (1 : α) < ((j + 1 : Nat) : α) / (m.n : α) then none
+    else
+      let v := cum m (j + 1) - cum m j
+      if isnan v then none else some v
+
+/-- cubic branch up to the returned Series (dutils.py:371-425): `yy = np.diff(yyc, axis=1).ravel()`,
+`yy = yy[~np.isnan(yy)]`, `pd.date_range(start, start + len(yy) days - 1 day)` -/
+def m2dCubicSeries (isnan : α → Bool) (y0 : Int) (m0 : Nat) (minthr : α) (vs : List (Option α)) :
+    Except Err (List (Date × α)) :=
+  if m0 < 1 ∨ 12 < m0 then .error .badMonth
+  else if vs = [] then .error .emptyInput
+  else
+    let ys := vs.map (fillMissing minthr)
+    let rows := (sweep (cubicInit ys (monthLengths y0 m0 ys.length))).map (cubicRow isnan)
+    let yy := rows.flatten.filterMap id
+    .ok ((daysFrom { y := y0, m := m0, d := 1 } yy.length).zip yy)
+
+/-- `monthly2daily(se, interpolation, minthreshold)` as the daily Series it returns -/
+def m2dSeries (isnan : α → Bool) (interp : String) (y0 : Int) (m0 : Nat) (minthr : α) (vs : List (Option α)) :
+    Except Err (List (Date × Option α)) :=
+  if interp = "flat" then m2dFlatSeries y0 m0 minthr vs
+  else if interp = "cubic" then
+    match m2dCubicSeries isnan y0 m0 minthr vs with
+    | .error e => .error e
+    | .ok out => .ok (out.map fun p => (p.1, some p.2))
+  else .error .badInterpolation
+
+/-- the per-month lists of `m2d` stamped with the calendar days of their months -/
+def stampMonths {β : Type} (y0 : Int) (m0 : Nat) (months : List (List β)) : List (Date × β) :=
+  (List.range months.length).flatMap fun j =>
+    (monthDays (monthAt y0 m0 j).1 (monthAt y0 m0 j).2).zip (months.getD j [])
 
 end m2d
 
